@@ -167,9 +167,12 @@ class Fn:
         self.timeout_ms = timeout_ms or (10000 if tier == 'quick' else 60000)
 
     def _on_violation(self, sz):
+        seen = set()
+
         def cb(name, path, model):
-            if self.replay_of is None:
-                return None, None
+            if self.replay_of is None or name in seen:
+                return None, None      # one native replay per obligation (and per worker): the first failing path
+            seen.add(name)
             payload = self.replay_of(name, path, model, sz)
             if payload is None:
                 return None, None
@@ -967,6 +970,10 @@ LOT_ROLES = None
 # ------------------------------------------------------------------------------------------ main
 def _child(conn, fn, tier, args):
     try:
+        os.setsid()        # own process group: the parent can kill the task together with its solver workers
+    except OSError:
+        pass
+    try:
         sub = report.Check('C11', tier)
         fn(sub, tier, *args)
         state = {k: getattr(sub, k) for k in ('obligations', 'functions', 'assumptions', 'trusted', 'bounded', 'notes', 'violations',
@@ -999,7 +1006,11 @@ def run_parallel(chk, tier, tasks, budget_s):
         except EOFError:
             msg = None
         if msg is None:
-            pr.terminate()
+            try:
+                import signal
+                os.killpg(pr.pid, signal.SIGKILL)
+            except OSError:
+                pr.terminate()
             chk.error('C11.%s.task' % name, 'the verification task did not finish within the budget (%ds) or died' % budget_s)
             continue
         pr.join(10)
@@ -1032,7 +1043,7 @@ def check_list_optimal_d(chk, tier, d):
     Fn(chk, tier, LOT, lot_entry(d), lot_post(d), replay_of=lot_replay(d), known=known,
        bounded_sizes=[(2, max(d, 1)), (3, max(d, 1))] if d else [(2, 1)],
        rename=(lambda n, rn=rn, tag=tag: rn(n) + tag), workers=3, expect_paths=3,
-       timeout_ms=6000 if tier == 'quick' else 60000).run()
+       timeout_ms=4000 if tier == 'quick' else 60000).run()
 
 
 def lot_preamble(chk, tier):
@@ -1061,7 +1072,7 @@ def main(tier):
     tasks = [('naive', check_naive, ()), ('rank', check_rank, ())]
     for d in ((0, 1, 2) if tier == 'quick' else (0, 1, 2, 3, 4)):
         tasks.append(('ListOptimalTrials.d%d' % d, check_list_optimal_d, (d,)))
-    run_parallel(chk, tier, tasks, budget_s=50 if tier == 'quick' else 1500)
+    run_parallel(chk, tier, tasks, budget_s=600 if tier == 'quick' else 3000)
     # every recorded finding must still reproduce on the real code (otherwise the entry is stale: checker error)
     for f in chk.findings:
         if f.get('status', 'open') != 'open' or f['obligation'] not in pool.procs and f['obligation'] not in pool.results:
